@@ -10,8 +10,8 @@ use futures_util::stream::{self, BoxStream, FuturesOrdered, StreamExt};
 
 use crate::{
     BatchRequest, BatchResponse, CacheControl, ContextBase, EmptyMutation, EmptySubscription,
-    Executor, InputType, ObjectType, OutputType, QueryEnv, Request, Response, ServerError,
-    ServerResult, SubscriptionType, Variables,
+    Executor, InputType, Name, ObjectType, OutputType, QueryEnv, Request, Response, ServerError,
+    ServerResult, SubscriptionType, Value,
     context::{Data, QueryEnvInner},
     custom_directive::CustomDirectiveFactory,
     extensions::{ExtensionFactory, Extensions},
@@ -798,8 +798,12 @@ fn check_recursive_depth(doc: &ExecutableDocument, max_depth: usize) -> ServerRe
     Ok(())
 }
 
-fn remove_skipped_selection(selection_set: &mut SelectionSet, variables: &Variables) {
-    fn is_skipped(directives: &[Positioned<Directive>], variables: &Variables) -> bool {
+/// The value of a variable as the directives see it: the value supplied by the
+/// request or else the default value of the variable definition.
+type VariableLookup<'a> = &'a dyn Fn(&Name) -> Option<Value>;
+
+fn remove_skipped_selection(selection_set: &mut SelectionSet, variables: VariableLookup<'_>) {
+    fn is_skipped(directives: &[Positioned<Directive>], variables: VariableLookup<'_>) -> bool {
         for directive in directives {
             let include = match &*directive.node.name.node {
                 "skip" => false,
@@ -811,7 +815,7 @@ fn remove_skipped_selection(selection_set: &mut SelectionSet, variables: &Variab
                 let value = condition_input
                     .node
                     .clone()
-                    .into_const_with(|name| variables.get(&name).cloned().ok_or(()))
+                    .into_const_with(|name| variables(&name).ok_or(()))
                     .unwrap_or_default();
                 let value: bool = InputType::parse(Some(value)).unwrap_or_default();
                 if include != value {
@@ -929,10 +933,21 @@ pub(crate) async fn prepare_request(
     let (operation_name, mut operation) = operation.map_err(|err| vec![err])?;
 
     // remove skipped fields
+    let variable_definitions = std::mem::take(&mut operation.node.variable_definitions);
+    let variable_lookup = |name: &Name| {
+        request.variables.get(name).cloned().or_else(|| {
+            variable_definitions
+                .iter()
+                .find(|def| def.node.name.node == *name)
+                .and_then(|def| def.node.default_value())
+                .cloned()
+        })
+    };
     for fragment in document.fragments.values_mut() {
-        remove_skipped_selection(&mut fragment.node.selection_set.node, &request.variables);
+        remove_skipped_selection(&mut fragment.node.selection_set.node, &variable_lookup);
     }
-    remove_skipped_selection(&mut operation.node.selection_set.node, &request.variables);
+    remove_skipped_selection(&mut operation.node.selection_set.node, &variable_lookup);
+    operation.node.variable_definitions = variable_definitions;
 
     let env = QueryEnvInner {
         extensions,
